@@ -300,4 +300,159 @@ theorem sortedLe_insertSorted (x : String) : ∀ (l : List String), sortedLe l =
         · exact absurd ‹_› h2
         · simp [sortedLe, hyz.1, ih]
 
+theorem sortedLe_sortStrings (l : List String) : sortedLe (sortStrings l) = true := by
+  induction l with
+  | nil => rfl
+  | cons d ds ih => exact sortedLe_insertSorted d _ ih
+
+/-! ### `uniqueSorted` (fix a050cea): same elements, and strictly increasing on a sorted list -/
+
+theorem mem_uniqueAfter : ∀ (l : List String) (last t : String), t ∈ uniqueAfter last l → t ∈ l := by
+  intro l
+  induction l with
+  | nil => intro last t h; simp [uniqueAfter] at h
+  | cons s rest ih =>
+    intro last t h
+    unfold uniqueAfter at h
+    split at h
+    · exact List.mem_cons_of_mem _ (ih last t h)
+    · rcases List.mem_cons.mp h with h | h
+      · exact h ▸ List.mem_cons_self ..
+      · exact List.mem_cons_of_mem _ (ih s t h)
+
+theorem mem_uniqueAfter_of_mem : ∀ (l : List String) (last t : String), t ∈ l → t = last ∨ t ∈ uniqueAfter last l := by
+  intro l
+  induction l with
+  | nil => intro last t h; cases h
+  | cons s rest ih =>
+    intro last t h
+    unfold uniqueAfter
+    split
+    · rename_i he
+      have he : last = s := by simpa using he
+      rcases List.mem_cons.mp h with h | h
+      · exact Or.inl (h.trans he.symm)
+      · exact ih last t h
+    · rcases List.mem_cons.mp h with h | h
+      · exact Or.inr (h ▸ List.mem_cons_self ..)
+      · rcases ih s t h with h | h
+        · exact Or.inr (h ▸ List.mem_cons_self ..)
+        · exact Or.inr (List.mem_cons_of_mem _ h)
+
+theorem mem_uniqueSorted (l : List String) (t : String) : t ∈ uniqueSorted l ↔ t ∈ l := by
+  cases l with
+  | nil => simp [uniqueSorted]
+  | cons s rest =>
+    simp only [uniqueSorted, List.mem_cons]
+    constructor
+    · rintro (h | h)
+      · exact Or.inl h
+      · exact Or.inr (mem_uniqueAfter rest s t h)
+    · rintro (h | h)
+      · exact Or.inl h
+      · exact mem_uniqueAfter_of_mem rest s t h
+
+theorem sortedLt_uniqueAfter : ∀ (l : List String) (last : String), sortedLe (last :: l) = true →
+    sortedLt (last :: uniqueAfter last l) = true := by
+  intro l
+  induction l with
+  | nil => intro last _; simp [uniqueAfter, sortedLt]
+  | cons s rest ih =>
+    intro last h
+    have h2 : last ≤ s ∧ sortedLe (s :: rest) = true := by simpa [sortedLe] using h
+    unfold uniqueAfter
+    split
+    · rename_i he
+      have he : last = s := by simpa using he
+      exact ih last (he ▸ h2.2)
+    · rename_i hne
+      have hne : last ≠ s := by simpa using hne
+      have hlt : last < s := Decidable.byContradiction fun hn => hne (String.le_antisymm h2.1 (String.not_lt.mp hn))
+      have := ih s h2.2
+      simp only [sortedLt, hlt, decide_true, Bool.true_and]
+      exact this
+
+theorem sortedLt_uniqueSorted (l : List String) (h : sortedLe l = true) : sortedLt (uniqueSorted l) = true := by
+  cases l with
+  | nil => rfl
+  | cons s rest => exact sortedLt_uniqueAfter rest s h
+
+theorem pairwise_of_sortedLt : ∀ (l : List String), sortedLt l = true → l.Pairwise (· < ·)
+  | [], _ => List.Pairwise.nil
+  | [a], _ => List.pairwise_singleton _ a
+  | a :: b :: rest, h => by
+    have h2 : a < b ∧ sortedLt (b :: rest) = true := by simpa [sortedLt] using h
+    have ih := pairwise_of_sortedLt (b :: rest) h2.2
+    refine List.Pairwise.cons ?_ ih
+    intro x hx
+    rcases List.mem_cons.mp hx with hx | hx
+    · exact hx ▸ h2.1
+    · exact String.lt_trans h2.1 (List.rel_of_pairwise_cons ih hx)
+
+theorem sortedLt_of_pairwise : ∀ (l : List String), l.Pairwise (· < ·) → sortedLt l = true
+  | [], _ => rfl
+  | [_], _ => rfl
+  | a :: b :: rest, h => by
+    have h1 : a < b := List.rel_of_pairwise_cons h (List.mem_cons_self ..)
+    have ih := sortedLt_of_pairwise (b :: rest) (List.Pairwise.of_cons h)
+    simp [sortedLt, h1, ih]
+
+theorem nodup_of_pairwise_lt {l : List String} (h : l.Pairwise (· < ·)) : l.Nodup := by
+  unfold List.Nodup
+  refine List.Pairwise.imp ?_ h
+  intro a b hab he
+  exact String.lt_irrefl b (he ▸ hab)
+
+theorem eraseDups_of_nodup : ∀ (l : List String), l.Nodup → l.eraseDups = l := by
+  intro l
+  induction l with
+  | nil => intro _; rfl
+  | cons a as ih =>
+    intro h
+    have ha : a ∉ as := (List.nodup_cons.mp h).1
+    have hf : as.filter (fun b => !b == a) = as := by
+      apply List.filter_eq_self.mpr
+      intro b hb
+      have : b ≠ a := fun e => ha (e ▸ hb)
+      simp [this]
+    rw [List.eraseDups_cons, hf, ih (List.nodup_cons.mp h).2]
+
+/-- the dimension list of a named `groupBy` is strictly increasing: sorted, every dimension once. -/
+theorem determineTagNames_pairwise (dims excl : List String) : (determineTagNames dims excl).Pairwise (· < ·) := by
+  unfold determineTagNames filterExcluded
+  exact (pairwise_of_sortedLt _ (sortedLt_uniqueSorted _ (sortedLe_sortStrings dims))).filter _
+
+/-- a strictly increasing list is determined by its elements. -/
+theorem pairwise_lt_ext : ∀ (l1 l2 : List String), l1.Pairwise (· < ·) → l2.Pairwise (· < ·) →
+    (∀ t, t ∈ l1 ↔ t ∈ l2) → l1 = l2
+  | [], [], _, _, _ => rfl
+  | [], b :: _, _, _, h => absurd ((h b).mpr (List.mem_cons_self ..)) (by simp)
+  | a :: _, [], _, _, h => absurd ((h a).mp (List.mem_cons_self ..)) (by simp)
+  | a :: t1, b :: t2, h1, h2, h => by
+    have hab : a = b := by
+      rcases List.mem_cons.mp ((h a).mp (List.mem_cons_self ..)) with e | ha
+      · exact e
+      · rcases List.mem_cons.mp ((h b).mpr (List.mem_cons_self ..)) with e | hb
+        · exact e.symm
+        · exact absurd (String.lt_trans (List.rel_of_pairwise_cons h2 ha) (List.rel_of_pairwise_cons h1 hb))
+            (String.lt_irrefl b)
+    subst hab
+    congr 1
+    apply pairwise_lt_ext t1 t2 (List.Pairwise.of_cons h1) (List.Pairwise.of_cons h2)
+    intro t
+    constructor
+    · intro ht
+      rcases List.mem_cons.mp ((h t).mp (List.mem_cons_of_mem _ ht)) with e | ht2
+      · exact absurd (e ▸ List.rel_of_pairwise_cons h1 ht) (String.lt_irrefl _)
+      · exact ht2
+    · intro ht
+      rcases List.mem_cons.mp ((h t).mpr (List.mem_cons_of_mem _ ht)) with e | ht1
+      · exact absurd (e ▸ List.rel_of_pairwise_cons h2 ht) (String.lt_irrefl _)
+      · exact ht1
+
+theorem mem_determineTagNames (dims excl : List String) (t : String) :
+    t ∈ determineTagNames dims excl ↔ t ∈ dims ∧ t ∉ excl := by
+  unfold determineTagNames filterExcluded
+  simp [mem_sortStrings, mem_uniqueSorted, List.mem_filter]
+
 end Kap.C06
